@@ -814,6 +814,12 @@ def str_method(eng, st, s: StrV, meth, pos, kw, node):
         return [(st, BoolV(z3.PrefixOf(pos[0].t, t)))]
     if meth == "endswith" and len(pos) == 1 and isinstance(pos[0], StrV):
         return [(st, BoolV(z3.SuffixOf(pos[0].t, t)))]
+    if meth in ("startswith", "endswith") and len(pos) == 1:
+        # a tuple of alternatives: true iff one of them matches
+        alts = concrete_items(eng, pos[0])
+        if alts is not None and all(isinstance(a, StrV) for a in alts):
+            op = z3.PrefixOf if meth == "startswith" else z3.SuffixOf
+            return [(st, BoolV(z3.Or(*[op(a.t, t) for a in alts]) if alts else z3.BoolVal(False)))]
     if meth == "isspace" and not pos:
         return [(st, BoolV(z3.InRe(t, z3.Plus(re_union(WS_CHARS)))))]
     if meth in ("strip", "lstrip", "rstrip") and not pos:
